@@ -3,6 +3,33 @@
 #include "common.h"
 
 #include <dsplib.h>
+// include what is used: the harness must not depend on which public header happens to include which
+#include <dsplib/agc.h>
+#include <dsplib/array.h>
+#include <dsplib/audio/compressor.h>
+#include <dsplib/audio/limiter.h>
+#include <dsplib/audio/noise-gate.h>
+#include <dsplib/awgn.h>
+#include <dsplib/czt.h>
+#include <dsplib/delay.h>
+#include <dsplib/detector.h>
+#include <dsplib/fft.h>
+#include <dsplib/fir.h>
+#include <dsplib/hilbert.h>
+#include <dsplib/ifft.h>
+#include <dsplib/lms.h>
+#include <dsplib/math.h>
+#include <dsplib/medfilt.h>
+#include <dsplib/random.h>
+#include <dsplib/resample.h>
+#include <dsplib/rls.h>
+#include <dsplib/snr.h>
+#include <dsplib/spectrum.h>
+#include <dsplib/stft.h>
+#include <dsplib/tuner.h>
+#include <dsplib/utils.h>
+#include <dsplib/window.h>
+#include <dsplib/xcorr.h>
 
 namespace vf {
 
